@@ -169,6 +169,17 @@ def run_case(case, model, props):
         be.close()
     hits = []
     mismatch = None
+    if final[0] in ('hung', 'error'):
+        # the queue stopped moving (or the driver failed): nothing to compare; a stall is C01/C12's business
+        tags = [case['backend'], 'final=' + final[0], 'pools=%s' % (pools,)]
+        if final[0] == 'error':
+            mismatch = {'op': 'driver', 'error': final[1]}
+        elif 'C01' in props:
+            sig = 'c01.queue-stalls.unbounded-pools' if pools == [None, None] else \
+                ('c01.bounded-pool-stall.enqueue-blocked' if not h.attempts else 'c01.bounded-pool-stall.after-attempt')
+            hits.append(hit(sig, 'the queue stopped moving: accepted mail is neither delivered, failed nor retried',
+                            observed={'attempts': h.attempts, 'why': final[1], 'pools': pools}))
+        return CaseResult(mismatch, hits, (case['backend'], tuple(case['outcomes']), tuple(pools)), tags)
     # ---- correspondence
     mc, mfinal = model_canon(mrounds, case['rcpts'])
     ic = []
@@ -178,9 +189,15 @@ def run_case(case, model, props):
             bl = [x for x in bl]
         ic.append(canon_round(rc, att, bl if case['factory'] else []))
     # the factory is consulted even when it returns None: the model speaks of bounces actually produced
-    if mfinal[0] == 'alive' and h.pending is not None and tuple(h.pending) != (mfinal[1], mfinal[2]) and mismatch is None:
+    if pools == [None, None] and mfinal[0] == 'alive' and h.pending is not None and tuple(h.pending) != (mfinal[1], mfinal[2]) and mismatch is None:
         mismatch = {'op': 'attempt run (next attempt)', 'impl_pending': h.pending, 'model_final': mfinal}
-    if ic != mc or tuple(final) != tuple(mfinal):
+    bounded = pools != [None, None]
+    if bounded:
+        # bounded pools can stall the queue (known finding, C01/C12); the attempt model has no pools: compare what happened
+        same = ic == mc[:len(ic)]
+    else:
+        same = ic == mc and tuple(final) == tuple(mfinal)
+    if not same:
         mismatch = {'op': 'attempt run', 'impl': ic, 'model': mc, 'impl_final': final, 'model_final': mfinal, 'errors': h.errors}
     # ---- monitors
     srounds, sfinal = spec_run(case['rcpts'], case['outcomes'], case['backoff'], case['sender'], case['factory'])
@@ -256,10 +273,12 @@ def run_case(case, model, props):
                                 observed={'recipient': rc, 'final': final, 'attempts': h.attempts}))
                 break
         if tuple(final) != tuple(sfinal) and not hits:
-            hits.append(hit('c01.final-state.' + case['backend'], 'message state after the history differs from what the outcomes imply',
+            sig = 'c01.final-state.' + case['backend'] if not bounded else 'c01.bounded-pool-stall.after-attempt'
+            hits.append(hit(sig, 'message state after the history differs from what the outcomes imply',
                             observed=final, expected=sfinal))
-        if len(h.attempts) < len(srounds):
-            hits.append(hit('c01.not-retried.' + case['backend'], 'the message was not attempted again although recipients are outstanding',
+        if len(h.attempts) < len(srounds) and not hits:
+            sig = 'c01.not-retried.' + case['backend'] if not bounded else 'c01.bounded-pool-stall.after-attempt'
+            hits.append(hit(sig, 'the message was not attempted again although recipients are outstanding',
                             observed=len(h.attempts), expected=len(srounds)))
     tags = [case['backend'], 'rounds=%d' % len(h.attempts), 'rcpts=%d' % len(case['rcpts']),
             'sender' if case['sender'] else 'null-sender', 'final=' + final[0]]
